@@ -48,7 +48,18 @@ def outcome(seq: bytes, enc, mode, full):
     if _MODEMAP is None:
         _MODEMAP = _modes()
     try:
-        r = get_key([_BYTE[b] for b in seq], enc, keynames=_MODEMAP[mode], full=full)
+        bs = [_BYTE[b] for b in seq]
+        # the same call spelt in the ways the signature allows: everything by keyword, positionally, or relying on the defaults
+        # (keynames = curtsies names, full = False) where the wanted values are the defaults
+        form = (len(seq) + seq[-1]) % 3 if seq else 0
+        if form == 1 and mode == "curtsies" and not full:
+            r = get_key(bs, enc)
+        elif form == 1 and not full:
+            r = get_key(bs, enc, _MODEMAP[mode])
+        elif form == 2:
+            r = get_key(bs, enc, _MODEMAP[mode], full)
+        else:
+            r = get_key(bs, enc, keynames=_MODEMAP[mode], full=full)
     except Exception as e:  # noqa
         return "exc", e
     return ("none", None) if r is None else ("key", r)
